@@ -188,9 +188,11 @@ INT32	of_linear_binary_code_col_forward_elimination  (of_linear_binary_code_cb_t
 	if (j == p)
 	{
 		/* it's a failure, it's not possible to choose a pivot for this empty column */
+		OF_VERIF_EVENT ("ge_fail", ofcb, i, 0, 0, 0);
 		OF_EXIT_FUNCTION
 		return 0;
 	}
+	OF_VERIF_EVENT ("ge_pivot", ofcb, i, j, 0, 0);
 	if (j != i)
 	{
 		// swap columns i and j in the two matrices
